@@ -76,6 +76,53 @@ def targets_leg(ck, tier):
             ck.nontrivial(('targets', lst, threads, order))
 
 
+def entry_leg(ck, tier, cases, expected, rnd):
+    """The same audits started the other ways the tool can be started - `python -m ssh_audit` (package __main__), `python -m
+    ssh_audit.ssh_audit`, the console script of setup.cfg (sys.exit(main())) - leave with the status the default start leaves with:
+    the rule's status for completed audits, the connection-error status for a target list holding an unreadable target."""
+    from checks import multi, c08
+    n = 8 if tier == 'quick' else 40
+    by_status = {}
+    for c in cases:
+        by_status.setdefault(expected[c['id']]['status'], []).append(c)
+    pick = []
+    for st in sorted(by_status):
+        pick += rnd.sample(by_status[st], min(n, len(by_status[st])))
+    scs, meta = [], []
+    for c in pick:
+        for entry in ('module', 'inner', 'console'):
+            for view in ('text', 'json'):
+                sc = rating.scenario(c, view)
+                sc['entry'] = entry
+                scs.append(sc)
+                meta.append((c, entry, view, expected[c['id']]['status']))
+    bad = c08.failing()['bad-block-size']
+    H = c08.healthy()
+    for lst in (('bad', 'good'), ('fail', 'bad')):
+        for entry in ('module', 'inner', 'console'):
+            sc, _ = multi.scenario([bad if x == 'bad' else ('server', H[x]) for x in lst], 1, None, json_out=False)
+            sc['entry'] = entry
+            scs.append(sc)
+            meta.append((lst, entry, 'text', None))
+    for (c, entry, view, want), sc, r in zip(meta, scs, runner.run_many(scs)):
+        ck.evaluated()
+        if r.get('harness_error') or r.get('hang'):
+            raise common.Machinery('run failed: %r' % (r.get('harness_error') or 'hang'))
+        replay = {'case': c, 'entry': entry, 'view': view, 'argv': sc['argv'], 'exit': r['exit'], 'expected_status': want, 'stdout': r['stdout'][-1500:]}
+        if want is None:
+            if r['exit'] in (0, 2, 3):
+                ck.violation('entry-point-status entry=%s incomplete-audit-looks-complete' % entry,
+                             'started as %s: targets %r, one of which never delivered a readable KEXINIT, exit %s' % (entry, c, r['exit']), replay)
+                continue
+        elif r['exit'] != want:
+            ck.violation('entry-point-status entry=%s expected=%s got=%s' % (entry, want, r['exit']),
+                         'started as %s (%s report): exit status %s, the worst finding implies %s' % (entry, view, r['exit'], want), replay)
+            continue
+        ck.cov['traces_validated_against_impl'] += 1
+        ck.nontrivial(('entry', entry, view, c['id'] if isinstance(c, dict) else c))
+    ck.notes.append('entry-point leg: %d runs through python -m ssh_audit / python -m ssh_audit.ssh_audit / console script' % len(scs))
+
+
 def run(tier):
     ck = common.Check('C02', tier)
     rnd = random.Random(ck.seed)
@@ -138,6 +185,7 @@ def run(tier):
     if items:
         ck.sample({'trace': rating.trace_of(*items[len(items) // 2])})
     targets_leg(ck, tier)
+    entry_leg(ck, tier, cases, expected, rnd)
     for modname, fn in (('checks.c09', 'c02_leg'), ('checks.c06', 'c02_leg')):
         try:
             mod = __import__(modname, fromlist=['x'])
